@@ -79,7 +79,14 @@ def run(tier, rep):
                 rep.violation(obj, "the process %s on this input: %s" % ("did not terminate" if how2 == "timeout" else "died with " + how2,
                                                                         [d["text"][:80] for d in obj["docs"]]))
                 continue
-            raise c.ToolError("hostile batch %d ended with %s but could not be reproduced (%s)" % (b, how, how2))
+            if how in ("exit -9", "timeout") and how2 == "ok" and s2:
+                # the batch is deterministic given its seed: killed from outside (memory pressure of a loaded machine, the
+                # shared wall-clock limit) and completing when run again alone is not a behaviour of the code under test
+                c.log("NOTE property=C07: hostile batch %d ended with %s under load and completed when run again alone; "
+                      "the second run is counted" % (b, how))
+                out = json.dumps(s2)
+            else:
+                raise c.ToolError("hostile batch %d ended with %s but could not be reproduced (%s)" % (b, how, how2))
         s = json.loads(out.strip().splitlines()[-1])
         total += s["cases"]
         distinct += s["distinct"]
